@@ -44,6 +44,8 @@ TRICKY = [
     "declare -a foo=(b c)\n", "local x=1 y\n", "export A=b\n", "readonly r\n", "typeset -i n\n", "nameref n=x\n",
     "echo ${a:h} ${a:t:r} ${a:h2}\n", "echo ${(f)x} ${(@s/:/)y}\n", "echo ${${a}#b} ${\"${a}\"}\n", "echo ${+x} ${%x}\n",
     "echo ${a[1,2]} ${a:1:2} ${a/b/c} ${a//b} ${!a*} ${!a@} ${a@Q} ${#a} ${!a} ${a:-b} ${a[@]} ${a[1]:-x}\n",
+    # all-zero sub-structs (an empty Replace) and other "empty but present" nodes
+    "echo ${a/} ${a//} ${a/#} ${a:-} ${a:0:0}\n", "a=() b=('') c=([0]=)\n",
     "echo $((1 + 2 * (3 - x++)))  $[1+2]\n", "((a = b ? c : d, e))\n", "let a=1 b++\n", "for ((i = 0; i < 3; i++)); do :; done\n",
     "[[ a == b && -n c || ! ( d =~ e(f|g) ) ]]\n", "[[ a -nt b ]]\n",
     "time -p foo\n", "time\n", "coproc foo { bar; }\n", "coproc bar\n", "select i in a b; do :; done\n",
